@@ -547,7 +547,7 @@ static void gen_honoured_body(hx_rng *r, int Fs, int ch, int app, int steps)
 
 /* gen-reset: the grid (Fs, application, forced channel count, frame size, bitrate, signal hint) on stereo encoders, the forced
    channel count (and sometimes a bandwidth limit) in force before the first frame; three packets, a reset, three packets, a
-   reset, two packets */
+   reset, two packets; then a second execution at the same grid point that changes the forced channel count mid-stream */
 static void gen_reset(uint64_t seed, int stride)
 {
    static const int ms4[4] = {4, 8, 16, 24};
@@ -567,6 +567,22 @@ static void gen_reset(uint64_t seed, int stride)
       for (i = 0; i < 8; i++) {
          if (i == 3 || i == 6) printf("R\n");
          printf("E %d 1276 %d %d\n", fsz, sig, hx_u(&r, 4) ? ep : (int)hx_u(&r, 3));
+      }
+      /* the same grid point with the forced channel count changed MID-stream (none / 2 -> 1 -> 2 -> 1), on packets of
+         20 ... 120 ms (several frames per packet in the LP and hybrid layers): in effect by the third packet */
+      {
+         static const int ms6[6] = {8, 16, 24, 32, 48, 24};
+         int fszm = Fs / 400 * ms6[(k + 2 * b) % 6];
+         printf("N enc 0 %d 2 %d 0\n", Fs, APPS[a]);
+         printf("S 4002 %d\n", br[b] + (int)hx_u(&r, 4000));
+         if (fc == 2) printf("S 4022 2\n");
+         if (h) printf("S 4024 3001\n");
+         printf("S 4010 %d\n", (int)hx_range(&r, 0, 5));
+         for (i = 0; i < 14; i++) {
+            if (i == 3 || i == 11) printf("S 4022 1\n");
+            if (i == 7) printf("S 4022 2\n");
+            printf("E %d 1276 %d %d\n", fszm, sig, ep);
+         }
       }
    }
 }
